@@ -58,6 +58,93 @@ st4_rot.witness = []
 st4_rot.options = {k: v for k, v in st4_point.options.items() if k != "samples"}
 
 
+# ------------------------------------------------------------------ ST6 dissipation: closed form (value contracts)
+# The field is  S[i,j] = -(a1 rex_i^p1 f_i + a2 (sum_{l<=i} rex_l df_l)^p2) E[i,j]  with rex_i = max(0, (B_i - thr)/thr),
+# B_i = e_i cg_i k_i^3 / (2 pi) and e_i = sum_j E[i,j] dtheta_j: the direction index enters only through the local energy
+# E[i,j] and through the directional integrals e_i.  Equivariance under rotation by whole bins / mirroring then needs
+# only that e_i is unchanged by a permutation of the directions of a uniform grid (the cyclic-shift lemma).
+import copy as _copy2
+from contracts.C08 import st6_inherent as _st6_in, st6_cumulative as _st6_cu, st6_dissipation as _st6_dis, integrate_dir as _int_dir, all1, all2
+
+
+def _frequency(a, i):
+    return a.spectral_grid["radian_frequency"][i] / 2.0 / pi_of()
+
+
+def _run(a, i):
+    term = lambda l: a.relative_saturation_exceedence[l] * a.spectral_grid["frequency_step"][l]
+    return Sum(0, i, term) + term(i)
+
+
+st6_inherent_value = _copy2.copy(_st6_in)
+st6_inherent_value.label = "st6_inherent_closed_form"
+st6_inherent_value.ensures = [("minus_a1_exceedence_power_frequency_times_local_energy", lambda a, r: all2(a.variance_density, lambda i, j: eq(
+    r[i, j], -a.parameters["a1"] * powr(a.relative_saturation_exceedence[i], a.parameters["p1"]) * _frequency(a, i) * a.variance_density[i, j])))]
+
+st6_cumulative_value = _copy2.copy(_st6_cu)
+st6_cumulative_value.label = "st6_cumulative_closed_form"
+st6_cumulative_value.ensures = [("minus_a2_running_exceedence_power_times_local_energy", lambda a, r: all2(a.variance_density, lambda i, j: eq(
+    r[i, j], -a.parameters["a2"] * powr(_run(a, i), a.parameters["p2"]) * a.variance_density[i, j])))]
+
+# dispersion solver / group velocity as (uninterpreted) functions of their own arguments: the wavenumber and group velocity of
+# frequency i do not depend on the spectrum or on any direction (positivity assumed as in C08; formulas are C07's subject)
+_KUF = _z3.Function("wavenumber_of", _T.RealS, _T.RealS, _T.RealS)
+_CGUF = _z3.Function("group_velocity_of", _T.RealS, _T.RealS, _T.RealS)
+K_FN = CalleeContract(C08.K_POS.target, C08._k_result,
+                      ensures=[("positive", lambda a, r: forall(0, r.n, lambda i: r[i] > 0)),
+                               ("function_of_frequency_and_depth", lambda a, r: forall(0, r.n, lambda i: r[i] == _KUF(_T.to_z3(a.angular_frequency[i]), _T.to_z3(a.dep))))],
+                      assumed=True, note="wavenumber: positive, and a function of (angular frequency, depth) only (solver under contract in C07)")
+CG_FN = CalleeContract(C08.CG_POS.target, C08._cg_result,
+                       ensures=[("positive", lambda a, r: forall(0, r.n, lambda i: r[i] > 0)),
+                                ("function_of_wavenumber_and_depth", lambda a, r: forall(0, r.n, lambda i: r[i] == _CGUF(_T.to_z3(a.k[i]), _T.to_z3(a.depth))))],
+                       assumed=True, note="group velocity: positive, and a function of (wavenumber, depth) only (formula under contract in C07)")
+
+
+def _st6_e(a, i):
+    return Sum(0, a.variance_density.shape[1], lambda j: a.variance_density[i, j] * a.spectral_grid["direction_step"][j])
+
+
+def _st6_rex(a, i):
+    k = _KUF(_T.to_z3(a.spectral_grid["radian_frequency"][i]), _T.to_z3(a.depth))
+    cg = _CGUF(k, _T.to_z3(a.depth))
+    thr = a.parameters["saturation_threshold"]
+    x = (_st6_e(a, i) * cg * k ** 3 / 2 / pi_of() - thr) / thr
+    return If(x > 0, x, 0)
+
+
+def _st6_local_rex(a):
+    rex = a._snap.deref(a._ghost["locals"]["relative_saturation_exceedence"])
+    return lambda i: rex.get((_T.to_z3(i) if not isinstance(i, int) else i,))
+
+
+def _st6_exceedence(a, r):
+    """the exceedence handed to both parts is max(0, (B_i - thr)/thr) with B_i = e_i cg_i k_i^3 / 2 pi, e_i the directional integral"""
+    if not hasattr(a.variance_density, "_a"):
+        return True
+    rex = _st6_local_rex(a)
+    return all1(a.variance_density.shape[0], lambda i: eq(rex(i), _st6_rex(a, i)))
+
+
+def _st6_closed_form(a, r):
+    if not hasattr(a.variance_density, "_a"):
+        return True          # executable twin: bounded rotation check below + C08's samples
+    rex = _st6_local_rex(a)
+    term = lambda l: rex(l) * a.spectral_grid["frequency_step"][l]
+    return all2(a.variance_density, lambda i, j: eq(r[i, j], (
+        -a.parameters["a1"] * powr(rex(i), a.parameters["p1"]) * _frequency(a, i)
+        - a.parameters["a2"] * powr(Sum(0, i, term) + term(i), a.parameters["p2"])) * a.variance_density[i, j]))
+
+
+st6_value = _copy2.copy(_st6_dis)
+st6_value.label = "st6_dissipation_closed_form"
+st6_value.ensures = [("exceedence_from_directional_integral_wavenumber_and_group_velocity", _st6_exceedence),
+                     ("field_is_minus_inherent_plus_cumulative_factor_of_that_exceedence_times_local_energy", _st6_closed_form)]
+st6_value.callees = {K_FN.target: K_FN, CG_FN.target: CG_FN,
+                     _st6_in.target: st6_inherent_value, _st6_cu.target: st6_cumulative_value}
+st6_value.witness = []
+st6_value.options = {**{k: v for k, v in _st6_dis.options.items() if k != "samples"}, "expose_locals": True}
+
+
 def _bounded_rotation(tier, seed):
     """all rotations k and the mirror image on the compiled code: spectral input and dissipation fields, bulk rates,
     dissipation-weighted direction, stress magnitude / direction"""
@@ -148,7 +235,7 @@ def _bounded_rotation(tier, seed):
 
 
 BOUNDED = [Bounded("rotation_and_mirror_compiled", _bounded_rotation)]
-CONTRACTS = [st4_rot]
+CONTRACTS = [st4_rot, st6_inherent_value, st6_cumulative_value, st6_value]
 TRUSTED = ["cos/sin periodicity and parity instances of the A-table", "positive wavenumber from the dispersion solver (assumed, C07)",
            "a rotation by whole bins of a uniform grid is an index map rot with theta[rot j] = theta[j] - delta + 2 pi w(j): taken as the definition of the transformation"]
 EXPLANATION = ("ST4 wind input proved, for every grid size, to depend on the direction only through the cosine of the angle to the wind and the local energy (relational obligation on the result term: "
